@@ -111,8 +111,13 @@ def layouts(rng):
                                            Transport(label='t', duration=1), rnd(2)])
 
 
-def incoming(d=30e-3):
+def incoming(d=30e-3, mutable=False):
     from pyroll.core import Profile
+    if mutable:
+        # the same state carried by MUTABLE numbers (0-d / 1-element arrays, as a measurement file or a preceding numpy computation delivers them):
+        # an augmented assignment anywhere along the chain would change them in place
+        return Profile.round(diameter=d, temperature=np.array(1473.15), strain=np.array(0.0), material=["C45", "steel"], density=np.array(7.5e3),
+                             specific_heat_capacity=690, length=np.array(1.0), t=np.array(0.0), x=np.array(0.0), flow_stress=50e6)
     return Profile.round(diameter=d, temperature=1473.15, strain=0, material=["C45", "steel"], density=7.5e3, specific_heat_capacity=690, length=1,
                          flow_stress=50e6)
 
@@ -218,9 +223,11 @@ def histories(chk, rng):
     from pyroll.core import RollPass, PassSequence, Rotator
     hf = RollPass.Profile.flow_stress(flow_stress)
     try:
-        for name, make in layouts(rng):
+        for li, (name, make) in enumerate(layouts(rng)):
             seq = make()
-            ip = incoming()
+            ip = incoming(mutable=(li % 2 == 1))
+            if li % 2 == 1:
+                name = name + ", state carried by numpy arrays"
             data = {'layout': name}
             templates = [(f"roll template of {u.label}", u.roll) for u in walk_units(seq) if isinstance(u, RollPass)]
             w = Watch()
